@@ -46,6 +46,11 @@ func genRobust(t *rapid.T, proto string, envs map[string]*wire.GenEnv, amplify b
 	}
 	n := rapid.IntRange(1, 12).Draw(t, "nitems")
 	var ids []uint16 // template ids in use in this history
+	type knownT struct {
+		exp int
+		tp  wire.Template
+	}
+	var known []knownT // templates announced so far (by exporter)
 	maxLen := 1500
 	big := !amplify && rapid.IntRange(0, 19).Draw(t, "big") == 0
 	if big {
@@ -76,6 +81,45 @@ func genRobust(t *rapid.T, proto string, envs map[string]*wire.GenEnv, amplify b
 		switch proto {
 		case "ipfix", "nf9":
 			env := envs[proto]
+			if kind >= 5 && kind <= 7 && len(known) > 0 && rapid.IntRange(0, 3).Draw(t, "zeroredef") == 0 {
+				// a known template is re-announced with the same elements and field count but (some or all) lengths
+				// zero / huge, then data for it follows: anything derived from the first definition is now stale
+				k := known[rapid.IntRange(0, len(known)-1).Draw(t, "knownidx")]
+				tp := wire.Template{ID: k.tp.ID, Options: k.tp.Options}
+				allZero := rapid.Bool().Draw(t, "allzero")
+				chg := func(fs []wire.Field) []wire.Field {
+					var out []wire.Field
+					for _, f := range fs {
+						nf := f
+						if allZero || rapid.Bool().Draw(t, "zerothis") {
+							nf.Len = rapid.SampledFrom([]uint16{0, 0, 0, 1, 65535, 0x7fff}).Draw(t, "newlen")
+						}
+						out = append(out, nf)
+					}
+					return out
+				}
+				tp.Scope, tp.Fields = chg(k.tp.Scope), chg(k.tp.Fields)
+				var m wire.Msg
+				env.GenHeader(t, &m)
+				skind := "tpl"
+				if tp.Options {
+					skind = "opt"
+				}
+				m.Sets = append(m.Sets, wire.Set{Kind: skind, Tpls: []wire.Template{tp}})
+				nb := rapid.IntRange(4, 64).Draw(t, "zbody")
+				dataSet := wire.Set{Kind: "raw", RawID: tp.ID, RawBody: make([]byte, nb)}
+				if rapid.Bool().Draw(t, "samemsg") {
+					m.Sets = append(m.Sets, dataSet)
+					add(k.exp, m.Bytes(), "weird-redefine+data")
+				} else {
+					add(k.exp, m.Bytes(), "weird-redefine")
+					var d wire.Msg
+					env.GenHeader(t, &d)
+					d.Sets = []wire.Set{dataSet}
+					add(k.exp, d.Bytes(), "weird-data")
+				}
+				continue
+			}
 			if kind >= 5 && kind <= 7 {
 				// adversarially structured message
 				var m wire.Msg
@@ -91,6 +135,7 @@ func genRobust(t *rapid.T, proto string, envs map[string]*wire.GenEnv, amplify b
 						id := wire.GenTemplateID(t)
 						tp := env.GenTemplate(t, id)
 						ids = append(ids, id)
+						known = append(known, knownT{exp, tp})
 						m.Sets = append(m.Sets, wire.Set{Kind: map[bool]string{false: "tpl", true: "opt"}[tp.Options], Tpls: []wire.Template{tp}})
 						m.Sets = append(m.Sets, env.GenDataSet(t, &tp, 6))
 					}
@@ -111,6 +156,7 @@ func genRobust(t *rapid.T, proto string, envs map[string]*wire.GenEnv, amplify b
 			for i := range sc.Main.Sets {
 				if sc.Main.Sets[i].Kind == "data" {
 					ids = append(ids, sc.Main.Sets[i].Tpl.ID)
+					known = append(known, knownT{exp, *sc.Main.Sets[i].Tpl})
 				}
 			}
 			for i := range sc.Pre {
@@ -428,7 +474,7 @@ func robustEnvs() map[string]*wire.GenEnv {
 
 const c01Rule = "case = history of 1..12 datagrams of one protocol (ipfix | nf9 | nf5 | sflow) from 1..3 exporters (4-byte, IPv4-mapped, IPv6), each datagram drawn from: " +
 	"valid (structured generators, incl. template announcements), valid-then-mutated (1..3 of: set a structural 16/32-bit length/count/type field to a boundary value, truncate, extend, splice, bit flip, duplicate/delete a range), " +
-	"adversarially structured (templates with 0 fields, zero-length / huge / variable-length fields on any type, disagreeing counts, ids < 256; sets with reserved ids and arbitrary bodies), raw bytes behind a valid version word, replays of earlier datagrams; " +
+	"adversarially structured (templates with 0 fields, zero-length / huge / variable-length fields on any type, disagreeing counts, ids < 256; known templates re-announced with the same elements but zero / huge lengths and then used; sets with reserved ids and arbitrary bodies), raw bytes behind a valid version word, replays of earlier datagrams; " +
 	"executed exactly as a worker does (Decode + JSONMarshal / SFDecode + json.Marshal) against one fresh template cache per history; oracle = no panic and the call returns (watchdog); " +
 	"non-trivial = the history holds a mutated/weird datagram and some datagram got past header validation into set/sample parsing; distinct by hash"
 
